@@ -95,18 +95,27 @@ def mkMode (cipher mac : String) (key iv mkey : Bytes) (ksLen : Nat) : Option (M
       some (.chacha ⟨XC.C03.keystream, poly1305, key.take 32, key.drop 32⟩, ⟨0, []⟩)
     | _ => none
 
-def showRErr : RErr → String
-  | .eof => "eof" | .len => "len" | .mac => "mac" | .pad => "pad"
+/-- the observable error class is what the Go error value / type tells, never its text: io.EOF and
+    io.ErrUnexpectedEOF are sentinels (`eof`); the CBC reader's verification errors have the type cbcError
+    (`cbc`, whether length or MAC); every other error of the package is an untyped errors.New value (`err`).
+    Length versus MAC failures remain distinguishable through the number of bytes consumed. -/
+def showRErr (cbc : Bool) : RErr → String
+  | .eof => "eof"
+  | _ => if cbc then "cbc" else "err"
 
 def showWErr : WErr → String
-  | .large => "large" | .rand => "rand"
+  | .large => "err" | .rand => "rand"
 
-def showRead (rs : List (Except RErr Bytes × Nat)) : String :=
+def Mode.isCbc : Mode → Bool
+  | .cbc _ => true
+  | _ => false
+
+def showRead (cbc : Bool) (rs : List (Except RErr Bytes × Nat)) : String :=
   if rs.isEmpty then "-" else
   ",".intercalate (rs.map fun (r, n) =>
     match r with
     | .ok p => s!"ok:{toHex p}/{n}"
-    | .error e => s!"err:{showRErr e}/{n}")
+    | .error e => s!"err:{showRErr cbc e}/{n}")
 
 def showWrites (ws : List (Except WErr Bytes)) : String :=
   if ws.isEmpty then "-" else
